@@ -90,11 +90,17 @@ def _grid(lb, ub, knots):
     return pts + outside + [float("nan")]
 
 
-def _pairs(trains, maps, thorough):
-    """thorough: every training vector under every affine map; quick: vector i under map i"""
-    if thorough:
-        return list(itertools.product(trains, maps))
-    return [(t, maps[i % len(maps)]) for i, t in enumerate(trains)]
+# affine maps x = offset + scale * t of the unit-interval layouts: scales 1e-9 .. 1e6, offsets 0 / 1e3 / 1e6 / 1e9 times the
+# scale (spacing tiny next to the magnitude: day ordinals, timestamps), plus two everyday ones
+MAPS = [(0.0, 1.0), (-5.0, 10.0)] + [(c * sc, sc) for sc in (1e-9, 1e-3, 1.0, 1e3, 1e6) for c in (0.0, 1e3, 1e6, 1e9)
+                                     if (c, sc) != (0.0, 1.0)] + [(738000.0, 49.0), (1.7e9, 3600.0)]
+
+
+def _pairs(trains, maps, thorough, rot=0):
+    """every training vector under 1 (quick) or 4 (thorough) affine maps; `rot` rotates through the map list from one
+    configuration to the next, so that all maps are met by all kinds of configurations"""
+    k = 4 if thorough else 1
+    return [(t, maps[(rot + i * k + j) % len(maps)]) for i, t in enumerate(trains) for j in range(k)]
 
 
 BS_KNOTS = ([0.5], [0.25, 0.5, 0.75], [0.5, 0.5], [0.3, 0.3, 0.3], [0.2, 0.4, 0.6, 0.8], [0.1, 0.1, 0.9],
@@ -104,7 +110,7 @@ BOUNDS = {"data": (None, None), "wider": (-0.25, 1.5), "narrower": (0.2, 0.8), "
 
 
 def _bs_cases(rng, thorough):
-    maps = [(0.0, 1.0), (-5.0, 10.0)] + ([(100.0, 0.01), (0.0, 1000.0), (-3e-4, 1e-3)] if thorough else [])
+    maps = MAPS
     trains = _train_vectors(rng, 4 if thorough else 1)
     cases = []
     for degree, icpt, (bname, (lb0, ub0)), mode in itertools.product(range(6), (False, True), BOUNDS.items(), MODES):
@@ -112,21 +118,25 @@ def _bs_cases(rng, thorough):
         base = degree + (1 if icpt else 0)
         specs += [("df", d) for d in sorted({base, base + 1, base + 3}) if d >= 1]
         specs += [("knots", k) for k in BS_KNOTS]
-        for (skind, sval), ((tname, tv), (a, s)) in itertools.product(specs, _pairs(trains, maps, thorough)):
+        for si, (skind, sval) in enumerate(specs):
+          # the rotation ignores mode and intercept, so that those variants share data (and the exact-oracle cache)
+          rot = 7 * degree + 3 * list(BOUNDS).index(bname) + (si if skind != "df" else 50 + sval - base)
+          for (tname, tv), (a, s) in _pairs(trains, maps, thorough, rot):
             if skind == "none" and degree == 0 and not icpt:
                 continue  # no columns at all
+            kv = sval
             if skind == "knots":
                 lo = lb0 if lb0 is not None else min(tv)
                 hi = ub0 if ub0 is not None else max(tv)
-                sval = [lo if k == "LB" else hi if k == "UB" else k for k in sval]
-                if not all(lo <= k <= hi for k in sval):
+                kv = [lo if k == "LB" else hi if k == "UB" else k for k in sval]
+                if not all(lo <= k <= hi for k in kv):
                     continue  # breakpoints must lie within the bounds (they may coincide with them)
             x = list(tv)
             if tname.startswith("random") and rng.random() < 0.3:
                 x.insert(rng.randint(0, len(x)), float("nan"))
             cfg = {"degree": degree, "include_intercept": icpt, "extrapolation": mode,
                    "df": sval if skind == "df" else None,
-                   "knots": _affine(sval, a, s) if skind == "knots" else None,
+                   "knots": _affine(kv, a, s) if skind == "knots" else None,
                    "lower_bound": None if lb0 is None else a + s * lb0,
                    "upper_bound": None if ub0 is None else a + s * ub0}
             xt = _affine(x, a, s)
@@ -145,7 +155,7 @@ CUBIC_BOUNDS = {"data": (None, None), "wider": (-0.25, 1.5), "narrower": (0.2, 0
 
 
 def _cubic_cases(rng, thorough):
-    maps = [(0.0, 1.0), (-5.0, 10.0)] + ([(100.0, 0.01), (0.0, 1000.0)] if thorough else [])
+    maps = MAPS
     trains = _train_vectors(rng, 4 if thorough else 1)
     if not thorough:  # the cubic transforms pick knots from the *distinct* values: coded vectors add little there
         trains = [t for t in trains if not t[0].startswith("coded")]
@@ -155,7 +165,8 @@ def _cubic_cases(rng, thorough):
         min_df = 1 if (cyclic or centred) else 2
         specs = [("df", d) for d in (min_df, min_df + 1, min_df + 2, min_df + 4)]
         specs += [("knots", k) for k in CUBIC_KNOTS]
-        for (skind, sval), ((tname, tv), (a, s)) in itertools.product(specs, _pairs(trains, maps, thorough)):
+        for (si, (skind, sval)), tm in itertools.product(enumerate(specs), range(len(trains) * (4 if thorough else 1))):
+            (tname, tv), (a, s) = _pairs(trains, maps, thorough, 5 * si + 3 * list(CUBIC_BOUNDS).index(bname) + 11 * cyclic)[tm]
             if skind == "knots":
                 lo = lb0 if lb0 is not None else 0.0
                 hi = ub0 if ub0 is not None else 1.0
@@ -334,7 +345,7 @@ def run_bounded(ctx):
              "{from data, wider, narrower than data (2 widths), lower only} x include_intercept x 5 extrapolation modes x training "
              "vectors x affine maps; each = fit + replay on a grid (knots, knots+-1e-6, bounds, bounds+-1e-7/-9, "
              "midpoints, far outside, NaN); distinct = (configuration, training vector)",
-        bound="configurations fully crossed; " + ("8 training vectors (grid with ties, top-/bottom-/both-coded, random) x 5 affine maps" if thorough else "3 training vectors (grid with ties, both-coded, random), each under one of 2 affine maps"),
+        bound="configurations fully crossed; " + ("8 training vectors (grid with ties, top-/bottom-/both-coded, random) x 4 affine maps each" if thorough else "3 training vectors (grid with ties, both-coded, random), one affine map each") + "; maps x = c*s + s*t rotate through scales s in 1e-9..1e6 x offsets c in {0, 1e3, 1e6, 1e9} (+ day-ordinal / timestamp like ones) from one configuration to the next",
     ) as b:
         rep = Reporter(ctx, b)
         cases = _bs_cases(rng, thorough)
@@ -354,7 +365,7 @@ def run_bounded(ctx):
         rule="{cr, cc} x {df in {min..min+2, min+4}, 5 explicit inner-knot lists} x bounds {data, wider, narrower} x "
              "constraints {none, 'center'} x 5 extrapolation modes x training vectors x affine maps; fit + replay on a "
              "grid containing the recorded knots (identity rows); distinct = (configuration, training vector)",
-        bound="configurations fully crossed; " + ("8 training vectors x 4 affine maps" if thorough else "2 training vectors, each under one of 2 affine maps"),
+        bound="configurations fully crossed; " + ("8 training vectors x 4 affine maps each" if thorough else "2 training vectors, one affine map each") + "; the same rotating map grid as for bs",
     ) as b:
         rep = Reporter(ctx, b)
         cases = _cubic_cases(rng, thorough)
